@@ -1,2 +1,4 @@
 import Generated.Facts
 import Generated.CoreAssign
+import Generated.CoreHandleIf
+import Generated.CoreScanner
